@@ -401,10 +401,11 @@ def C11(tier, seed):
 def C12(tier, seed):
     c = Check("C12", tier, seed)
     binp = build_harness(ALL)
+    m_proofs(c, "OrderProofs")
     m_matches(c, binp, tier, "cmp")
     m_cmp(c, binp, tier)
     traces(c, binp, "hist", tier, quick_n=3000)
-    return c.finish(rule="all pairs over the 108x3 product domain (==, cmp both ways, hash, == &str, field-by-field order incl. transitivity on the spec) and all pairs of operation routes from default() (same logical value along different routes); random pairs from histories",
+    return c.finish(rule="the specification's order on language identifiers is PROVED (TLAPS, OrderProofs.tla, all values) to be a strict total order consistent with equality; all pairs over the 108x3 product domain (==, cmp both ways, hash, == &str, field-by-field order incl. transitivity on the spec) and all pairs of operation routes from default() (same logical value along different routes); random pairs from histories",
                     assumptions=ASSUME_COMMON, exhaustive=True)
 
 
